@@ -1,5 +1,6 @@
 import IpaVerif.Model.Util
 import IpaVerif.Model.Batcher
+import IpaVerif.Model.Validators
 import IpaVerif.Generated.BatcherConsts
 /-! Line-protocol handlers for property C16 (model side). Import-free.
 
@@ -9,6 +10,13 @@ Request:  `c16.batcher <rpb> <total|-|inf> <failing batches|-> <op>…`
        `d<i>` drop future i · `t<n>`/`ti`/`tu` set_total_records · `s` into_single_batch ·
        `e` is_empty · `x` dump of the private state
 Response: one token per op, then `| inv=<closure invocation log>`.
+
+Request:  `c16.val <dzkp|mac> <context total|-|inf> <records per batch / active work> <op>…`
+  the REAL validators (wrappers around the batcher) under a malicious `TestWorld` context:
+  `t<n>`/`ti`/`tu` `DZKPValidator::set_total_records` · `v<r>` `ctx.validate_record(r)` created and
+  polled once · `p<i>` poll future i again (MAC: all three helpers, until it completes or nothing moves) ·
+  `d<i>` drop future i · `s`/`s<k>` `validate()` / `validate_indexed(k)` · `e` `is_verified`
+Response: one token per op, then `| drop=<outcome of dropping the validator>`.
 -/
 namespace IpaVerif.Driver.C16
 open IpaVerif.Util IpaVerif.Batcher
@@ -128,10 +136,89 @@ def batcher (args : List String) : Option String :=
     pure (String.intercalate " " (outs ++ ["|", "inv=" ++ invStr w'.invoked]))
   | _ => none
 
+
+/-! ## `c16.val`: the validator wrappers -/
+open IpaVerif.Validators in
+def wpanicTag : WPanic → String
+  | .batcher p => panicTag p
+  | .poisoned => "panic:poisoned"
+  | .inactive => "panic:inactive"
+  | .strongRef => "panic:strong-ref"
+  | .zeroBatch => "panic:zero-batch"
+  | .notPowerOfTwo => "panic:not-pow2"
+  | .totalRequired => "panic:total-required"
+  | .contextUnsafe => "panic:context-unsafe"
+
+def pollTag : PollOut → String
+  | .pending => "pend" | .ok => "ok" | .err e => errTag e | .panic p => panicTag p | .gone => "gone"
+
+open IpaVerif.Validators in
+/-- state: the validator and whether it was moved into `validate` / `validate_indexed`. -/
+def valStep (st : V × Bool) (t : String) : Option ((V × Bool) × String) := do
+  let (v, moved) := st
+  let (c, arg) ← splitOp t
+  let dz := v.kind == .dzkp
+  match c with
+  | 't' =>
+    let tot ← (if arg = "i" then some Total.indeterminate else if arg = "u" then some Total.unspecified
+               else arg.toNat?.map Total.specified)
+    if !dz then pure (st, "na") else if moved then pure (st, "moved") else
+    match v.setTotalRecords tot with
+    | (v', .ok _) => pure ((v', moved), "t")
+    | (v', .error p) => pure ((v', moved), wpanicTag p)
+  | 'v' =>
+    let r ← arg.toNat?
+    match v.validateRecord r with
+    | (v', .ok o) => pure ((v', moved), pollTag o)
+    | (v', .error p) => pure ((v', moved), wpanicTag p)
+  | 'p' =>
+    let i ← arg.toNat?
+    let (v', o) := v.poll i
+    pure ((v', moved), pollTag o)
+  | 'd' => do let i ← arg.toNat?; pure ((v.dropFut i, moved), "d")
+  | 's' =>
+    if arg ≠ "" && arg.toNat?.isNone then none else
+    if !dz then pure (st, "na") else if moved then pure (st, "moved") else
+    match v.validateIndexed with
+    | (v', .ok _) => pure ((v', true), "s:ok")
+    | (v', .error p) => pure ((v', true), wpanicTag p)
+  | 'e' =>
+    if !dz then pure (st, "na") else if moved then pure (st, "moved") else
+    match v.isVerified with
+    | .ok true => pure (st, "e1")
+    | .ok false => pure (st, "e0")
+    | .error p => pure (st, wpanicTag p)
+  | _ => none
+
+open IpaVerif.Validators in
+def valRun : V × Bool → List String → List String → Option ((V × Bool) × List String)
+  | st, [], acc => some (st, acc.reverse)
+  | st, t :: ts, acc => do
+    let (st', o) ← valStep st t
+    valRun st' ts (o :: acc)
+
+open IpaVerif.Validators in
+def validators (args : List String) : Option String :=
+  match args with
+  | kind :: total :: rpb :: ops => do
+    let rpb ← rpb.toNat?
+    let total ← parseTotal total
+    let tps := IpaVerif.Generated.targetProofSizeTest
+    let made ← (if kind = "dzkp" then some (newDzkp total rpb tps)
+                else if kind = "mac" then some (newMac total rpb tps) else none)
+    match made with
+    | .error p => pure (wpanicTag p)
+    | .ok v =>
+      let ((v', moved), outs) ← valRun (v, false) ops []
+      let dropped := if moved then "ok" else match v'.dropOutcome with | none => "ok" | some p => wpanicTag p
+      pure (String.intercalate " " (outs ++ ["|", "drop=" ++ dropped]))
+  | _ => none
+
 /-- `some response` if the request belongs to this property, else `none`. -/
 def handle (toks : List String) : Option String :=
   match toks with
   | "c16.batcher" :: args => some ((batcher args).getD "bad-request")
+  | "c16.val" :: args => some ((validators args).getD "bad-request")
   | _ => none
 
 /-! ## Spec-side oracle
@@ -277,10 +364,152 @@ def batcherOracle (args : List String) (impl : String) : Option String :=
     | none => pure "holds"
   | _ => none
 
+
+/-! ## Spec-side oracle for `c16.val`
+
+Again written against the statement of C16 only.  The total in force is the one DECLARED to the
+validator: the total of the context it was created from, replaced by every `set_total_records` call
+that was *accepted* (answered `t`).  On the implementation's response: (1) a wait (the `v` itself or a
+later `p`) of a legitimate record completes only once every record of its batch below the declared
+total has asked for validation; (2) conversely the call that completes a batch at the declared total
+closes it (DZKP, nothing pushed: at once; MAC: when the checking future is polled to quiescence) and
+the other records of the batch are then released with `ok`; (3) misuse is loud; (4) once a call
+panicked the validator may answer anything loud, but never a silent `pend`/`ok` that breaks (1). -/
+
+structure VSt where
+  dzkp : Bool
+  rpb : Nat
+  total : Option Nat
+  seen : List Nat := []
+  /-- future index ↦ (record, legit, done) -/
+  futs : List (Nat × Bool × Bool) := []
+  dead : Bool := false
+  consumed : Bool := false
+  /-- batches for which some wait completed (so the check finished) -/
+  checked : List Nat := []
+  bad : Option String := none
+
+def vflag (o : VSt) (why : String) : VSt := if o.bad.isSome then o else { o with bad := some why }
+
+def vWhole (o : VSt) (b : Nat) : Bool :=
+  match o.total with
+  | none => false
+  | some n => b * o.rpb < n && (batchRecords o.rpb n b).all (o.seen.contains ·)
+
+def totStr (o : VSt) : String := match o.total with | some n => toString n | none => "none"
+
+/-- the future of the last legitimate arrival of batch `b` -/
+def vChecker (o : VSt) (b : Nat) : Option Nat :=
+  ((List.range o.futs.length).filter (fun i =>
+    let (r, legit, _) := o.futs.getD i (0, false, false); legit && r / o.rpb == b)).getLast?
+
+def markDone (o : VSt) (i : Nat) : VSt :=
+  match o.futs[i]? with
+  | some (r, l, _) => { o with futs := o.futs.set i (r, l, true) }
+  | none => o
+
+/-- a completed wait of record `r` (future `i`) with response `resp`. -/
+def vCompleted (o : VSt) (i r : Nat) (resp : String) : VSt :=
+  let b := r / o.rpb
+  let o := { markDone o i with checked := b :: o.checked }
+  if !vWhole o b then
+    vflag o s!"record {r} was released ({resp}) before every record of its batch {b} below the declared total {totStr o} asked for validation"
+  else if resp != "ok" then vflag o s!"record {r} got {resp} although nothing was tampered with"
+  else o
+
+def vStep (o : VSt) (t resp : String) : VSt :=
+  match splitOp t with
+  | none => o
+  | some (c, arg) =>
+    let n := arg.toNat?.getD 0
+    let loudResp := resp.startsWith "panic" || resp.startsWith "err"
+    match c with
+    | 't' =>
+      if resp == "t" then
+        if arg == "i" then { o with total := none } else if arg == "u" then o else { o with total := some n }
+      else if resp.startsWith "panic" then { o with dead := true } else o
+    | 'v' =>
+      let misuse := o.consumed || (match o.total with
+        | none => true
+        | some tot => n ≥ tot || o.seen.contains n || vWhole o (n / o.rpb))
+      let pushed := !resp.startsWith "panic"
+      if misuse then
+        let o := if pushed then { o with futs := o.futs ++ [(n, false, true)] } else { o with dead := true }
+        if resp == "pend" || resp == "ok" then vflag o s!"misuse validate_record({n}) silently accepted ({resp}); declared total {totStr o}"
+        else o
+      else if loudResp then
+        let o := if pushed then { o with futs := o.futs ++ [(n, false, true)] } else { o with dead := true }
+        if o.dead then o else vflag o s!"validate_record({n}) was legitimate (declared total {totStr o}) but answered {resp}"
+      else
+        let i := o.futs.length
+        let o := { o with futs := o.futs ++ [(n, true, false)], seen := o.seen ++ [n] }
+        if resp == "pend" then
+          if o.dzkp && vWhole o (n / o.rpb) then
+            vflag o s!"record {n} completed batch {n / o.rpb} at the declared total {totStr o} but the batch did not close"
+          else o
+        else vCompleted o i n resp
+    | 'p' =>
+      match o.futs[n]? with
+      | none => o
+      | some (r, legit, done) =>
+        if resp == "gone" then o else
+        if !legit || done then
+          (if resp == "pend" || resp == "ok" then vflag o s!"future {n} answered {resp} after it was finished" else o)
+        else if resp == "pend" then
+          let b := r / o.rpb
+          let chk := vChecker o b
+          let chkDone := o.checked.contains b
+          -- MAC checks exchange messages on channels ordered by batch index: batch b can only be
+          -- checked after the checks of the earlier batches
+          let earlier := o.dzkp || (List.range b).all (o.checked.contains ·)
+          if vWhole o b && earlier && (chk == some n || chkDone) then
+            vflag o s!"record {r} still waits although every record of batch {b} below the declared total {totStr o} asked and the check was driven"
+          else o
+        else if resp == "panic:sender-dropped" then markDone o n
+        else if resp.startsWith "panic" then
+          vflag (markDone o n) s!"record {r}: legitimate wait panicked: {resp}"
+        else vCompleted o n r resp
+    | 'd' => markDone o n
+    | 's' =>
+      if resp == "na" || resp == "moved" then o
+      else if resp == "s:ok" then { o with consumed := true }
+      -- a refused `validate` gives the validator up, but pending waits may keep the batcher alive
+      else { o with dead := true }
+    | _ => o
+
+def valOracle (args : List String) (impl : String) : Option String :=
+  match args with
+  | kind :: total :: rpb :: ops => do
+    let rpb ← rpb.toNat?
+    let total ← parseTotal total
+    let toks := impl.splitOn " "
+    let resps := toks.takeWhile (· ≠ "|")
+    -- construction refused loudly: nothing to check
+    if resps.length == 1 && ops.length != 1 && (resps.headD "").startsWith "panic" then pure "holds" else
+    if toks.length == 1 && (toks.headD "").startsWith "panic" then pure "holds" else
+    if rpb = 0 then none else
+    if resps.length ≠ ops.length then none else
+    let o0 : VSt := { dzkp := kind == "dzkp", rpb := rpb, total := total.count }
+    let o := (ops.zip resps).foldl (fun o (t, r) => vStep o t r) o0
+    -- (5) misuse is loud: giving up a validator that still holds an unchecked batch must not be silent
+    let dropTok := toks.getLast?.getD ""
+    let unchecked := o.futs.filter (fun (r, legit, _) => legit && !vWhole o (r / o.rpb))
+    let o := match unchecked.head? with
+      | some (r, _, _) =>
+        if o.dzkp && !o.consumed && !o.dead && dropTok == "drop=ok" then
+          vflag o s!"the validator was dropped silently although record {r} asked for validation and its batch was never checked"
+        else o
+      | none => o
+    match o.bad with
+    | some why => pure ("fails " ++ why)
+    | none => pure "holds"
+  | _ => none
+
 /-- Property oracle on (request, implementation response). -/
 def oracle (toks : List String) (impl : String) : Option String :=
   match toks with
   | "c16.batcher" :: args => some ((batcherOracle args impl).getD "unknown")
+  | "c16.val" :: args => some ((valOracle args impl).getD "unknown")
   | _ => none
 
 end IpaVerif.Driver.C16
